@@ -275,6 +275,96 @@ let run_check line =
     else stats_check (inner ^ "\t" ^ out)
   | None -> verdict false ("outcome:" ^ i)
 
+(* ---- end to end: rows of the table printed by the real runner, one per thread count ----
+   impl line: "R <T> IN <s> <durations> ROW fastest|slowest|median|mean|samples|iters ;; R ..".
+   A duration cell such as "42.83_ns" is the value truncated to 4 significant digits in its unit with trailing
+   zeros removed (C18): it stands for the interval [p, p + 10^-(4 - integer digits)) units. *)
+let rec pow10 k = if k <= 0 then n_of_small 1 else N.mul ten (pow10 (k - 1))
+
+let unit_picos = function
+  | "ps" -> Some (pow10 0) | "ns" -> Some (pow10 3) | "\xc2\xb5s" | "us" -> Some (pow10 6)
+  | "ms" -> Some (pow10 9) | "s" -> Some (pow10 12) | _ -> None
+
+let le_n a b = match N.compare a b with Gt -> false | _ -> true
+let lt_n a b = match N.compare a b with Lt -> true | _ -> false
+
+(* does the printed cell stand for the value [v] picoseconds? *)
+let cell_ok (cell : string) (v : n) : bool =
+  match String.split_on_char '_' cell with
+  | [num; u] ->
+    (match unit_picos u with
+     | None -> false
+     | Some unit ->
+       let (ip, fp) = match String.split_on_char '.' num with
+         | [a] -> (a, "") | [a; b] -> (a, b) | _ -> ("x", "") in
+       let digits_ok x = x <> "" && String.for_all (fun c -> c >= '0' && c <= '9') x in
+       if not (digits_ok ip) || (fp <> "" && not (digits_ok fp)) then false
+       else begin
+         let dmax = max 0 (4 - String.length ip) in
+         let d = String.length fp in
+         if d > dmax then false
+         else begin
+           let p = N.mul (n_of_string (ip ^ fp)) (pow10 (dmax - d)) in     (* p / 10^dmax units *)
+           let scaled = N.mul v (pow10 dmax) in
+           le_n (N.mul p unit) scaled && lt_n scaled (N.mul (N.add p (n_of_small 1)) unit)
+         end
+       end)
+  | _ -> false
+
+let parse_e2e_run (part : string) : (string * n * n list * string list) option =
+  match toks part with
+  | ["R"; t; "IN"; s; d; "ROW"; row] -> Some (t, n_of_string s, nlist d, String.split_on_char '|' row)
+  | _ -> None
+
+let split_runs (i : string) : string list =
+  let rec go acc s =
+    match find_sub s " ;; " 0 with
+    | Some k -> go (String.sub s 0 k :: acc) (String.sub s (k + 4) (String.length s - k - 4))
+    | None -> List.rev (s :: acc) in
+  go [] i
+
+(* [figs] = (fastest, slowest, median, mean, samples, iters) the row must show *)
+let row_ok row (f, sl, md, me, sc, ic) =
+  match row with
+  | [cf; cs; cm; cme; csamples; citers] ->
+    cell_ok cf f && cell_ok cs sl && cell_ok cm md && cell_ok cme me
+    && csamples = string_of_n sc && citers = string_of_n ic
+  | _ -> false
+
+let model_figs dbg s durs =
+  let inp = { in_size = s; in_durs = durs; in_allocs = []; in_counters = [] } in
+  let sv = List.stable_sort (fun (_, a) (_, b) -> cmp_n a b) (indexed durs) in
+  match compute_stats true dbg sv inp with
+  | Ok st -> Some (st.st_time.fastest, st.st_time.slowest, st.st_time.median, st.st_time.mean,
+                   st.st_sample_count, st.st_iter_count)
+  | Panic _ -> None
+
+let spec_figs s durs =
+  (spec_fastest durs s, spec_slowest durs s, spec_median durs s, spec_mean durs s,
+   n_of_small (List.length durs), N.mul s (n_of_small (List.length durs)))
+
+let figs_s (f, sl, md, me, sc, ic) =
+  "t=" ^ String.concat "," (List.map string_of_n [f; sl; md; me]) ^ " sc=" ^ string_of_n sc ^ " ic=" ^ string_of_n ic
+
+(* model line = the implementation's run when its row stands for the model's figures, else the model's figures *)
+let e2e_mode dbg line =
+  let (_, i) = split_sb line in
+  String.concat " ;; " (List.map (fun part ->
+      match parse_e2e_run part with
+      | Some (_, s, durs, row) ->
+        (match model_figs dbg s durs with
+         | Some figs -> if row_ok row figs then part else "model " ^ figs_s figs
+         | None -> "model panic")
+      | None -> "unparsed") (split_runs i))
+
+let e2e_check line =
+  let (_, i) = split_sb line in
+  let bad = List.filter_map (fun part ->
+      match parse_e2e_run part with
+      | Some (t, s, durs, row) -> if row_ok row (spec_figs s durs) then None else Some ("t=" ^ t)
+      | None -> Some "unparsed") (split_runs i) in
+  verdict (bad = []) ("row-not-the-statistics-of-that-run's-samples:" ^ String.concat "," bad)
+
 (* ---- per-input counter value ---- *)
 let periter line =
   match toks line with
@@ -305,6 +395,9 @@ let dispatch mode line =
   | "run" -> run_mode true line
   | "run_rel" -> run_mode false line
   | "run.sb" | "run_rel.sb" -> run_check line
+  | "e2e" -> e2e_mode true line
+  | "e2e_rel" -> e2e_mode false line
+  | "e2e.sb" | "e2e_rel.sb" -> e2e_check line
   | "periter" | "periter_rel" -> periter line
   | "periter.sb" | "periter_rel.sb" -> periter_check line
   | _ -> failwith ("unknown mode " ^ mode)
